@@ -53,6 +53,12 @@ pub fn encode_all(lv: &Value) -> Result<(), (String, String)> {
         let _ = write!(s, "{lv}");
     })
     .map_err(|p| ("display".to_string(), p))?;
+    // `to_string()` is how display text is obtained in practice: a Display impl that returns an
+    // error makes it panic in the caller
+    guarded(|| {
+        let _ = lv.to_string();
+    })
+    .map_err(|p| ("to_string".to_string(), p))?;
     guarded(|| {
         let _ = format!("{lv:?}");
     })
